@@ -233,6 +233,13 @@ func ResourceCorpus(packageRoot string, seed int64, variant, nRandom int) *Schem
 	s.Resources = append(s.Resources, ann4)
 	// an entity without any required field (optional and defaulted fields only): the empty object is a valid body, so a
 	// server or client that quietly replaces an unreadable body by {} is visible only here
+	// a collection keyed by a custom typeref whose registered equality is coarser than == (ids compare case-insensitively):
+	// key equality of the library must be the registered one (v2; the root generator has no custom typerefs and treats the
+	// type as an ordinary typeref over string - ForV1)
+	s.Add(&Named{Ident: Ident{"CaseId", ns}, Kind: "typeref", Prim: "string", Custom: true})
+	cased := collection("vr.cased", nil, "cased", "caseId", R(ns, "CaseId"), R(ns, "Leaf"))
+	cased.Methods = restMethods(restMethodsCollection, true, false, nil, false)
+	s.Resources = append(s.Resources, cased)
 	allopt := collection("vr.allopt", nil, "allopt", "optId", P("int64"), R(ns, "KeyParams"))
 	allopt.Methods = restMethods(restMethodsCollection, true, false, nil, false)
 	s.Resources = append(s.Resources, allopt)
